@@ -307,3 +307,29 @@ var ruleInstances = func() map[string][]string {
 	}
 	return m
 }()
+
+// captureGuardPatterns: the three guards that keep capture groups ({0} is not dropped, xx is not folded, xx* is not merged
+// when x declares a group) with the capture sitting under EVERY kind of quantifier, greedy and lazy, directly and one
+// non-capturing group deeper, inside the expression that would be dropped / folded / merged.
+func captureGuardPatterns() []string {
+	quants := []string{"", "*", "+", "?", "{2}", "{0,1}", "{1,}", "*?", "+?", "??", "{2}?", "{1,}?", "{0,1}?"}
+	caps := []string{"(a)", "(?P<n>a)", `(,\d+)`}
+	var out []string
+	for _, q := range quants {
+		for _, c := range caps {
+			cq := c + q
+			deep := "(?:" + c + ")" + q
+			for _, body := range []string{cq, deep, "x" + cq + "y", cq + ";"} {
+				g := "(?:" + body + ")"
+				out = append(out,
+					g+"{0}b",  // {0}: kept, not dropped
+					g+g,       // not folded into {2}
+					g+g+"*",   // not merged into +
+					"^"+g+g+"$",
+				)
+			}
+			out = append(out, cq+"{0}b", "(?:"+cq+"){0}([0-9]+)")
+		}
+	}
+	return out
+}
